@@ -275,13 +275,16 @@ fn child_main(a: &[String]) -> ! {
             };
             let _ = writeln!(stdout.lock(), "{}", s);
         }
-        "loop" => {
+        "loop" | "loopfresh" => {
             let (kind, dest) = (&a[1], PathBuf::from(&a[4]));
             let _ = writeln!(stdout.lock(), "ready");
             let _ = stdout.lock().flush();
             for i in 0..100000usize {
                 // a fresh workbook each time: re-saving the same value is not byte-stable (C12)
                 let book = workbook(&a[2 + i % 2]);
+                if a[0] == "loopfresh" {
+                    let _ = fs::remove_file(&dest);
+                }
                 let _ = guard(|| save_call(kind, &book, &dest, Path::new("-")));
             }
         }
@@ -437,6 +440,17 @@ pub fn gen(out: &Out, tier: Tier, _seed: u64) -> Vec<String> {
                 }
                 v.push(format!("c13 path {} {} {} {} {}", kind, wb, size, oldn, fault));
             }
+            // a destination that does not exist before the call: the data must still go to the temp name
+            // (with the temp name symlinked to /dev/full the save fails and no file appears at the destination)
+            for fault in ["none", "devfull", "createfail"] {
+                if fault == "devfull" && size == 0 {
+                    continue;
+                }
+                v.push(format!("c13 path {} {} {} absent {}", kind, wb, size, fault));
+            }
+            for k in [0u64, 1, size / 2, size.saturating_sub(1), size, size + 1] {
+                v.push(format!("c13 path {} {} {} absent limit:{}", kind, wb, size, k));
+            }
             // RLIMIT_FSIZE = k
             let step: u64 = if slow {
                 if thorough { 512 } else { (size / 6).max(1) }
@@ -463,6 +477,12 @@ pub fn gen(out: &Out, tier: Tier, _seed: u64) -> Vec<String> {
 
     // ---- (c) SIGKILL exploration
     v.push(format!("c13 kill {} {}", if thorough { 200 } else { 50 }, _seed));
+    // ---- (d) an observer thread polling the destination during saves (fresh and existing destination)
+    for kind in ["xlsx", "light", "csv"] {
+        for mode in ["fresh", "existing"] {
+            v.push(format!("c13 watch {} {} {}", kind, if thorough { 40 } else { 8 }, mode));
+        }
+    }
     v
 }
 
@@ -479,6 +499,7 @@ pub fn exec(out: &mut Out, line: &str) -> (String, bool) {
         "sink" if t.len() == 9 => exec_sink(out, line, &t),
         "path" if t.len() == 7 => exec_path(out, line, &t),
         "kill" if t.len() == 4 => exec_kill(out, line, &t),
+        "watch" if t.len() == 5 => exec_watch(out, line, &t),
         _ => ("bad-op".into(), false),
     }
 }
@@ -521,6 +542,7 @@ fn exec_sink(out: &mut Out, line: &str, t: &[&str]) -> (String, bool) {
 fn exec_path(out: &mut Out, line: &str, t: &[&str]) -> (String, bool) {
     let (kind, wb, fault) = (t[2], t[3], t[6]);
     let size: u64 = t[4].parse().unwrap_or(0);
+    let fresh = t[5] == "absent"; // the destination does not exist before the call
     let oldn: usize = t[5].parse().unwrap_or(0);
     let scratch = scratch_dir(out);
     let dir = scratch.join("case");
@@ -544,6 +566,7 @@ fn exec_path(out: &mut Out, line: &str, t: &[&str]) -> (String, bool) {
             fs::write(dest.join("keep").join("old"), &old).unwrap();
             dest_is_dir = true;
         }
+        _ if fresh => {}
         _ => fs::write(&dest, &old).unwrap(),
     }
     match fault {
@@ -563,7 +586,8 @@ fn exec_path(out: &mut Out, line: &str, t: &[&str]) -> (String, bool) {
         }
     } else {
         match observe(&dest) {
-            Seen::File(b) if b == old => ("old", String::new()),
+            Seen::Absent if fresh => ("old", String::new()),
+            Seen::File(b) if b == old && !fresh => ("old", String::new()),
             Seen::File(b) => {
                 let complete = match kind {
                     "pw" | "pwlight" | "setpw" => {
@@ -601,6 +625,9 @@ fn exec_path(out: &mut Out, line: &str, t: &[&str]) -> (String, bool) {
     scrub(&dir);
     let fclass = fault.split(':').next().unwrap_or("?");
     out.count(&format!("path.{}.{}.{}", kind, fclass, res));
+    if fresh {
+        out.count(&format!("path.fresh-destination.{}", fclass));
+    }
     out.count(&format!("path.dest.{}", dest_class));
     out.count(&format!("path.tmp.{}", tmp_class));
     if plain.len() < 8192 {
@@ -635,7 +662,7 @@ fn exec_kill(out: &mut Out, line: &str, t: &[&str]) -> (String, bool) {
     let scratch = scratch_dir(out);
     let dir = scratch.join("kill");
     let childdir = scratch.join("child");
-    let (mut n_old, mut n_a, mut n_b, mut n_tmp, mut n_bad) = (0u64, 0u64, 0u64, 0u64, 0u64);
+    let (mut n_old, mut n_a, mut n_b, mut n_tmp, mut n_bad, mut n_absent) = (0u64, 0u64, 0u64, 0u64, 0u64, 0u64);
     for j in 0..n {
         let kind = ["xlsx", "light", "csv"][(j % 3) as usize];
         scrub(&dir);
@@ -643,10 +670,14 @@ fn exec_kill(out: &mut Out, line: &str, t: &[&str]) -> (String, bool) {
         let dest = dir.join(format!("out.{}", ext_of(kind)));
         let tmp = dir.join(format!("out.{}tmp", ext_of(kind)));
         let old = old_bytes(37);
-        fs::write(&dest, &old).unwrap();
+        // every other round: the destination does not exist, and the child removes it again before each save
+        let fresh = (j / 3) % 2 == 1;
+        if !fresh {
+            fs::write(&dest, &old).unwrap();
+        }
         let a = reference_bytes(kind, "big");
         let b = reference_bytes(kind, "big2");
-        let args: Vec<String> = vec!["loop".into(), kind.into(), "big".into(), "big2".into(), dest.to_string_lossy().into()];
+        let args: Vec<String> = vec![if fresh { "loopfresh" } else { "loop" }.into(), kind.into(), "big".into(), "big2".into(), dest.to_string_lossy().into()];
         let mut child = match child_cmd(&childdir, &args).spawn() {
             Ok(c) => c,
             Err(_) => continue,
@@ -662,12 +693,13 @@ fn exec_kill(out: &mut Out, line: &str, t: &[&str]) -> (String, bool) {
         }
         let _ = child.wait();
         match observe(&dest) {
-            Seen::File(x) if x == old => n_old += 1,
+            Seen::Absent if fresh => n_absent += 1,
+            Seen::File(x) if x == old && !fresh => n_old += 1,
             Seen::File(x) if x == a => n_a += 1,
             Seen::File(x) if x == b => n_b += 1,
             _ => {
                 n_bad += 1;
-                out.oracle_fail(Fail::new("kill-dest-neither-old-nor-new").with("op", line).with("kind", kind).with("delay_us", delay.to_string()));
+                out.oracle_fail(Fail::new("kill-dest-neither-old-nor-new").with("op", line).with("kind", kind).with("delay_us", delay.to_string()).with("fresh", fresh.to_string()));
             }
         }
         if !matches!(observe(&tmp), Seen::Absent) {
@@ -679,11 +711,90 @@ fn exec_kill(out: &mut Out, line: &str, t: &[&str]) -> (String, bool) {
         out.oracle_ok();
     }
     out.count_n("kill.dest.old", n_old);
+    out.count_n("kill.dest.absent(fresh)", n_absent);
     out.count_n("kill.dest.newA", n_a);
     out.count_n("kill.dest.newB", n_b);
     out.count_n("kill.tmp.left", n_tmp);
     out.notes.push(format!("SIGKILL exploration (not proof): {} kills, dest old {} / new {} / neither {}, temp left behind {}", n, n_old, n_a + n_b, n_bad, n_tmp));
-    (format!("ok ## old={} new={} bad={} tmpleft={}", n_old, n_a + n_b, n_bad, n_tmp), true)
+    (format!("ok ## old={} absent={} new={} bad={} tmpleft={}", n_old, n_absent, n_a + n_b, n_bad, n_tmp), true)
+}
+
+/// `c13 watch <kind> <n> <fresh|existing>`: an observer thread reads the destination as fast as it can
+/// while this thread saves `big` / `big2` alternately `n` times (fresh: the destination is removed before
+/// every save).  Every observation must be: no file (fresh only), the old file (existing only), or one of
+/// the two complete outputs.  Exploration of the observer clause on the real file system (the theorem is
+/// C13_observer / C13_observer_fresh on the step-level model).
+fn exec_watch(out: &mut Out, line: &str, t: &[&str]) -> (String, bool) {
+    use std::sync::atomic::{AtomicBool, Ordering};
+    use std::sync::Arc;
+    let kind = t[2].to_string();
+    let n: usize = t[3].parse().unwrap_or(0);
+    let fresh = t[4] == "fresh";
+    let scratch = scratch_dir(out);
+    let dir = scratch.join("watch");
+    scrub(&dir);
+    fs::create_dir_all(&dir).unwrap();
+    let dest = dir.join(format!("out.{}", ext_of(&kind)));
+    let old = old_bytes(37);
+    if !fresh {
+        fs::write(&dest, &old).unwrap();
+    }
+    let a = reference_bytes(&kind, "big");
+    let b = reference_bytes(&kind, "big2");
+    let stop = Arc::new(AtomicBool::new(false));
+    let (stop2, dest2, old2, a2, b2) = (stop.clone(), dest.clone(), old.clone(), a.clone(), b.clone());
+    let watcher = std::thread::spawn(move || {
+        // (observations, absent, old, new, bad, first bad description)
+        let mut c = (0u64, 0u64, 0u64, 0u64, 0u64, String::new());
+        while !stop2.load(Ordering::Relaxed) {
+            c.0 += 1;
+            match observe(&dest2) {
+                Seen::Absent => c.1 += 1,
+                Seen::File(x) if x == old2 => c.2 += 1,
+                Seen::File(x) if x == a2 || x == b2 => c.3 += 1,
+                // the file vanished between lstat and open (it was being replaced / removed): an absent observation
+                Seen::Other(e) if e.starts_with("open:") && e.contains("No such file") => c.1 += 1,
+                Seen::File(x) => {
+                    c.4 += 1;
+                    if c.5.is_empty() {
+                        c.5 = format!("{} bytes, common prefix with a complete output {}", x.len(),
+                            x.iter().zip(a2.iter()).take_while(|(p, q)| p == q).count().max(x.iter().zip(b2.iter()).take_while(|(p, q)| p == q).count()));
+                    }
+                }
+                other => {
+                    c.4 += 1;
+                    if c.5.is_empty() {
+                        c.5 = match other { Seen::Symlink => "symlink".into(), Seen::Dir => "dir".into(), Seen::Other(s) => s, _ => "?".into() };
+                    }
+                }
+            }
+        }
+        c
+    });
+    let mut errs = 0u64;
+    for i in 0..n {
+        if fresh {
+            let _ = fs::remove_file(&dest);
+        }
+        let book = workbook(if i % 2 == 0 { "big" } else { "big2" });
+        if !matches!(guard(|| save_call(&kind, &book, &dest, Path::new("-"))), Ok(Ok(()))) {
+            errs += 1;
+        }
+    }
+    stop.store(true, Ordering::Relaxed);
+    let c = watcher.join().unwrap_or((0, 0, 0, 0, 1, "watcher panicked".into()));
+    scrub(&dir);
+    out.count_n(&format!("watch.{}.observations", t[4]), c.0);
+    out.count_n(&format!("watch.{}.absent", t[4]), c.1);
+    out.count_n(&format!("watch.{}.old", t[4]), c.2);
+    out.count_n(&format!("watch.{}.new", t[4]), c.3);
+    if c.4 > 0 || errs > 0 || (!fresh && c.1 > 0) {
+        let what = if c.4 > 0 { c.5.clone() } else if errs > 0 { format!("{} saves failed", errs) } else { "an existing destination was seen absent".to_string() };
+        out.oracle_fail(Fail::new("watch-dest-neither-old-nor-new").with("op", line).with("kind", &kind).with("mode", t[4]).with("bad", c.4.to_string()).with("detail", &what));
+    } else {
+        out.oracle_ok();
+    }
+    (format!("ok ## observations={} absent={} old={} new={} bad={}", c.0, c.1, c.2, c.3, c.4), true)
 }
 
 pub fn run(out: &mut Out, tier: Tier, seed: u64, replay: Option<Vec<String>>) {
